@@ -626,9 +626,15 @@ impl Element {
                     entries.push(format!("[\"on\", {}, {}]", js_str(name), e.reference()))
                 }
                 Attr::Dir(d) => {
+                    let mut arg_alt = String::new();
                     let (arg, mods): (String, Vec<String>) = match &d.value {
                         DirValue::Array { arg, mods, .. } => (
                             match (&d.ns_arg, arg) {
+                                (Some(a), Some(e)) => {
+                                    // given twice: either source is accepted
+                                    arg_alt = format!(", argAlt: [{}]", e.reference());
+                                    js_str(a)
+                                }
                                 (Some(a), _) => js_str(a),
                                 (None, Some(e)) => e.reference(),
                                 (None, None) => "undefined".into(),
@@ -647,11 +653,12 @@ impl Element {
                         ),
                     };
                     entries.push(format!(
-                        "[\"dir\", {{ written: {}, value: {}, arg: {}, mods: {} }}]",
+                        "[\"dir\", {{ written: {}, value: {}, arg: {}, mods: {}{} }}]",
                         js_str(&d.written),
                         dirvalue_ref_value(&d.value),
                         arg,
-                        mods_array(&mods)
+                        mods_array(&mods),
+                        arg_alt
                     ));
                 }
                 Attr::Html(v) => entries.push(format!("[\"html\", {}]", dirvalue_ref_value(v))),
